@@ -388,6 +388,84 @@ def wl_large_file(ctx, rng, case):
         sc.cleanup()
 
 
+def wl_huge_file(ctx, rng, case):
+    """backing files beyond 1 MiB (sizes at which an implementation might switch to another write strategy); additions through add() and
+    through add_alt() with hand-made hash lists whose probes share bytes (two or three different bits of one byte, the first and the last
+    byte of the array, a repeated position).  After EVERY completed addition the whole file must equal the export of an independent
+    in-memory model; then close, reopen from elsewhere, one more addition."""
+    import probables as P
+
+    est, rate = rng.choice([(1_000_000, 0.01), (700_000, 0.001), (2_000_000, 0.05), (900_000, 0.01)])
+    est += rng.randint(0, 50)
+    mk = refimpl.bloom_sizing_simple(est, rate)
+    if mk is None:
+        return
+    m, k = mk
+    nbytes = (m + 7) // 8
+    sc = bl.Scratch(ctx, case)
+    cwd0 = os.getcwd()
+    path = os.path.join(sc.dir, "huge.blm")
+    case.desc = {"est": est, "rate": rate, "bits": m, "hashes": k, "file_bytes": nbytes + 20}
+    ctx.maximum("largest_backing_file_bytes", nbytes + 20)
+    f = None
+    try:
+        f = P.BloomFilterOnDisk(path, est, rate)
+        orc = FileOracle(est, rate, m, k)
+
+        def whole_file(where):
+            with open(path, "rb") as fh:
+                got = fh.read()
+            ctx.counters["oracle_evaluations"] += 1
+            want = orc.expected_file()
+            if got != want:
+                diff = [i for i in range(min(len(got), len(want))) if got[i] != want[i]][:6] if len(got) == len(want) else None
+                ctx.fail(f"backing file of {nbytes + 20} bytes differs from the export of the same completed additions {where}", lengths=(len(got), len(want)), differing_bytes=diff)
+
+        whole_file("after creation")
+        n_add = rng.randint(8, 14)
+        for i in range(n_add):
+            if rng.random() < 0.45:
+                key = f"huge-{case.index}-{i}"
+                case.op("add", key)
+                f.add(key)
+                orc.complete(key)
+            else:
+                b0 = rng.choice([0, nbytes - 1, rng.randrange(nbytes), rng.randrange(nbytes)])
+                width = min(8, m - 8 * b0)
+                bits = rng.sample(range(width), min(width, rng.choice([2, 2, 3])))
+                hl = [8 * b0 + x for x in bits]
+                while len(hl) < k:
+                    hl.append(rng.choice([rng.randrange(m), hl[0]]))
+                rng.shuffle(hl)
+                hl = [h + m * rng.randint(0, 2) for h in hl]
+                case.op("add_alt", hl)
+                f.add_alt(list(hl))
+                orc.model.add(hl)
+                orc.completed += 1
+                ctx.count("huge_file.additions_with_probes_sharing_a_byte")
+            whole_file(f"after addition #{i + 1} ({case.ops[-1][0]})")
+        f.close()
+        whole_file("after close")
+        os.chdir(sc.other)
+        f = P.BloomFilterOnDisk(os.path.relpath(path, sc.other))
+        os.chdir(cwd0)
+        ctx.check(f.elements_added == orc.completed, "huge file: the reopened filter reports another element count", got=f.elements_added, want=orc.completed)
+        f.add("one-more")
+        orc.complete("one-more")
+        whole_file("after an addition on the reopened file")
+        f.close()
+        ctx.count("huge_file_cases")
+        case.nontrivial = True
+    finally:
+        os.chdir(cwd0)
+        if f is not None:
+            try:
+                f.close()
+            except Exception:
+                pass
+        sc.cleanup()
+
+
 # ------------------------------------------------------------------------------- real SIGKILL
 
 def run_child(path, sidelog, hist_file, kill_at, timeout=90):
@@ -515,6 +593,7 @@ PROP = Prop(
         Workload("same_name", wl_same_relative_name, quick=30, thorough=600),
         Workload("snapshots", wl_snapshots, quick=150, thorough=30000),
         Workload("large_file", wl_large_file, quick=8, thorough=300),
+        Workload("huge_file", wl_huge_file, quick=3, thorough=40),
         Workload("kill", wl_kill, quick=4, thorough=96),
     ],
     assumptions=["process kill (SIGKILL): what was written through the mapping or the file descriptor survives in the page cache; power loss is out of scope",
